@@ -1,5 +1,6 @@
 import Ptn.C06.Core
 import Ptn.Common.AnalysisLocal
+import Ptn.C06.Structure
 /-! Property theorems for C06, part 2 (Mathlib): the combinatorial theorems are in `Core.lean`
 (core Lean only, same namespace); here the linear-algebra consequences. -/
 namespace Ptn.C06
